@@ -155,6 +155,14 @@ def invalid_cases():
                 out.append(("ics", "control-char-in-%s-position-%d-%02x" % (lname, pos, ord(ch)), data))
         clean = [l[:l.index("@")] + "fine" if "@" in l else l for l in lines]
         VALID_MULTI.append((lname, ("\r\n".join(["BEGIN:VCALENDAR", "VERSION:2.0", "PRODID:-//xv//C14//EN"] + clean + ["END:VCALENDAR"]) + "\r\n").encode("utf-8")))
+    # a complete object followed by something that is not one: every truncation of a second copy, and arbitrary text
+    # (a parser that stops after the first object must not make the whole body acceptable)
+    refc2 = make_vcf(9001, ["param"])
+    lines = refc2.split(b"\r\n")
+    for k in range(1, len(lines) - 1):
+        out.append(("vcf", "complete-card-then-truncated-after-line-%d" % k, refc + b"\r\n".join(lines[:k]) + b"\r\n"))
+    for i, t in enumerate([b"hello world\r\n", b"<html></html>\r\n", b"END:VCARD trailing\r\n"]):
+        out.append(("vcf", "complete-card-then-text-%d" % i, refc + t))
     out.append(("vcf", "card-without-begin-end", b"VERSION:3.0\r\nFN:Jo\r\nN:Doe;Jo;;;\r\n"))
     out.append(("vcf", "card-without-end", b"BEGIN:VCARD\r\nVERSION:3.0\r\nFN:Jo\r\nN:Doe;Jo;;;\r\n"))
     out.append(("vcf", "card-without-begin", b"VERSION:3.0\r\nFN:Jo\r\nN:Doe;Jo;;;\r\nEND:VCARD\r\n"))
